@@ -4,7 +4,7 @@
      result : (0 val) | (1 kind) | (9)                 kind 1 ValueError 2 TypeError 3 ZeroDivisionError
      trace  : primitive operations of eval_const_fx, in order
      exact  : every float produced by a sub-expression is a binary64 value (exact-rational = IEEE)
-     calls  : (resolve_numeric resolve_bool glyph_bitmap) outcomes *)
+     calls  : (resolve_numeric resolve_bool glyph_bitmap resolve_sleep) outcomes *)
 From Coq Require Import ZArith QArith List Bool.
 From RV Require Import Base.Wire Base.Text Lang.PyAst Lang.PySem Lang.PyAstWire Gen.SafeCasts Lang.ConstEval Lang.ConstEnv.
 Import ListNotations.
@@ -131,7 +131,8 @@ Definition run (v : wv) : wv :=
                wopt WI (literal_length c e); wbool (in_guard c e); wbool (all_exact c e);
                wbool (binds_safe_name c);
                WL [ enc_outcome WI (resolve_numeric c e); enc_outcome wbool (resolve_bool c e);
-                    enc_outcome (fun zs => WL (map WI zs)) (glyph_bitmap c e) ];
+                    enc_outcome (fun zs => WL (map WI zs)) (glyph_bitmap c e);
+                    enc_outcome WI (resolve_sleep c e) ];
                enc_cres (eval_const c e) ]
       | _, _ => wbad
       end
